@@ -33,6 +33,20 @@ CHECKS = {
              "(completeness of the hook is cross-checked by comparing the model's file image with the real file).",
         technique="TLA+ model checking (TLC) + trace validation + crash-point enumeration against the real recovery",
         engine="vstorage"),
+    "C04": dict(
+        level="model_checking",
+        text="StorageAlloc.tla, a cell-level model of storage.rs (record table, free list, best-fit placement, split / "
+             "coalesce, truncate at end, defragmentation, reopen by walking headers) is model-checked exhaustively for small "
+             "constants (Tiling, TableMatchesDisk, ValuesIntact, Tight); random histories of insert / insert-at (incl. beyond "
+             "the end) / replace / resize / move / remove / optimize / reopen on the real Storage<D> (hook H2) over "
+             "MemoryStorage, FileStorage and FileStorageMemoryMapped log the full projection (record table, free regions, "
+             "length, every live value, error for every removed index) after every operation and TLC decides each step "
+             "against the property-level StorageAllocTrace.tla (placement policy left free).",
+        design="3.2, 4 C04",
+        note="exhaustive for the scaled constants only (<= 3 live values of 0-3 cells, 5-7 operations); histories on the real "
+             "storage are sampled (<= 8 live values of 0-48 bytes); operations are issued with valid indexes",
+        technique="TLA+ model checking (TLC) of the allocator mechanism + trace validation of the real Storage<D>",
+        engine="vstorage"),
     "C05": _db("Histories interleaved with reopen / optimize_storage / shrink_to_fit / backup+open-backup / copy / rename / "
                "reopen-with-the-other-file-variant on Db, DbFile and DbMemory; every maintenance step must stutter on the "
                "DbModel state and the full canonical dump (ids, endpoints, ordered properties, aliases, indexes with counts, "
@@ -94,8 +108,8 @@ CHECKS = {
 }
 
 ENGINES = [
-    {"name": "vstorage", "path": "harness/vstorage", "serves_properties": ["C01", "C19"],
-     "kind_free_text": "Rust drivers over the real storage layer and hash map (hooks H1, H2); TLC for WalStorage/WalTrace, HashMap/HashMapTrace"},
+    {"name": "vstorage", "path": "harness/vstorage", "serves_properties": ["C01", "C04", "C19"],
+     "kind_free_text": "Rust drivers over the real storage layer and hash map (hooks H1, H2); TLC for WalStorage/WalTrace, StorageAlloc/StorageAllocTrace, HashMap/HashMapTrace"},
     {"name": "vdb", "path": "harness/vdb",
      "serves_properties": ["C05", "C06", "C08", "C09", "C10", "C11", "C12", "C13", "C14", "C15", "C16", "C17", "C18"],
      "kind_free_text": "Rust driver recording query histories from the real database (all storage variants); "
